@@ -699,7 +699,7 @@ pub fn run_c12(tier: Tier) -> i32 {
             }
         }
     }
-    let two_budget = if t { 10 } else { 3 };
+    let two_budget = if t { 5 } else { 3 };
     // 2-deviation bases: the small curated files with members (indices 2..)
     let mut bases: Vec<C12Base> = Vec::new();
     for (i, (l, tm)) in raw.into_iter().enumerate() {
@@ -713,7 +713,7 @@ pub fn run_c12(tier: Tier) -> i32 {
         prop: "C12",
         tier,
         level: "fault_enumeration",
-        rule: "base files = caches of the curated mappings and of every MS-B history of depth <= 2; deviation bound 1 on all base files: every 32-bit field (header, every class / member / by-params record) set to each boundary value (0,1,2,counts-1,counts,2^31,2^32-2,2^32-1, a valid string offset, an offset one byte into a string; for the base file with long non-ASCII names: every offset of the string section), every single-bit flip of the whole file, every string-section byte set to 00/7f/80/ff, 8 LEB128 length-prefix patterns (2^64-1, 2^63, 2^32, 2^31, 2^28, over-long, 2^21, 2^32-1) over the start of every string and the last 12 offsets, every adjacent record swap and duplication; deviation bound 2 (all pairs of field edits) on 3 (quick) / 10 (thorough) files. Every buffer the parser accepts is queried with the full universe incl. lines 0, 2^32, 2^64-1. evaluations = corrupted buffers; distinct = distinct answer vectors of accepted buffers".into(),
+        rule: "base files = caches of the curated mappings and of every MS-B history of depth <= 2; deviation bound 1 on all base files: every 32-bit field (header, every class / member / by-params record) set to each boundary value (0,1,2,counts-1,counts,2^31,2^32-2,2^32-1, a valid string offset, an offset one byte into a string; for the base file with long non-ASCII names: every offset of the string section), every single-bit flip of the whole file, every string-section byte set to 00/7f/80/ff, 8 LEB128 length-prefix patterns (2^64-1, 2^63, 2^32, 2^31, 2^28, over-long, 2^21, 2^32-1) over the start of every string and the last 12 offsets, every adjacent record swap and duplication; deviation bound 2 (all pairs of field edits) on 3 (quick) / 5 (thorough) files. Every buffer the parser accepts is queried with the full universe incl. lines 0, 2^32, 2^64-1. evaluations = corrupted buffers; distinct = distinct answer vectors of accepted buffers".into(),
         bounds: json!({"base_files": nb, "deviation_bound_all_files": 1, "deviation_bound_2_files": two_budget}),
         assumptions: vec!["Debug/Display helpers of cache/debug.rs and ProguardCache::test() are outside the property's list of queries".into(), "overflow checks are compiled in (release profile with overflow-checks = true, debug-assertions = true)".into()],
         trusted_base: vec!["rustc/std".into(), "pgmc/src/dec.rs for locating fields".into()],
